@@ -34,6 +34,18 @@ add("C09", "exhaustive small-scope enumeration x 6 configurations with a determi
     "Every solve / solve_multiple call over the reduced C01 corpus and the growing families must return within a tick budget several times the largest count observed on returning calls, without panicking (the recursive solver's overflow-depth panic is allowed only where the search is that deep).",
     "Termination is decided in bounded form: 'returns within N ticks'. The budget and the observed maximum are in the evidence.",
     "DESIGN.md §4 C09")
+add("C14", "explicit-state breadth-first search over real InferenceTables (clonable states, canonical-state dedup), every transition compared with a reference unifier",
+    "From a table with unknowns in three universes, integer/float unknowns and placeholders of two universes, every ordered pair of a term set (ADTs incl. a covariant one, tuples, slices, raw pointers, scalars; depth <= 3) is related invariantly from every reachable table state up to the tier's depth; success must coincide with REF-unifiability (occurs check, universe visibility, kinds) and the resulting table must be alpha-equivalent to REF's most general unifier including universes; covariant relation of lifetime-free types must agree after discharging its returned subtype goals.",
+    "Trusted: the reference unifier in harness/src/props/c14.rs. Bounds: term depth, search depth 2 (quick) / 3 (thorough), frontier cap reported.",
+    "DESIGN.md §4 C14")
+add("C15", "same explicit-state search as C14; invariants evaluated on every failed transition",
+    "In the C14 exploration every failed relate is applied to the state's own table (failures accumulate along the history): the full observable state (normalized value and universe of every unknown, next fresh universe) must be identical before and after, and for every pair relate(a,b) must succeed iff relate(b,a) does.",
+    "Observable state = canonical form of the tuple of all original unknowns plus the next fresh universe on a clone.",
+    "DESIGN.md §4 C15")
+add("C16", "exhaustive enumeration of bounded values over 8 table states; every API result compared with a reference canonicalizer and with round-trip laws",
+    "Every tuple of 2 (thorough: 3) type terms of depth <= 2 mixing unknowns of all three kinds in two universes, placeholders of all kinds in two other universes, repeated unknowns, over the initial table and seven pre-unified tables: canonicalize must number unknowns by first occurrence with kind and current universe, be invariant under swapping interchangeable unknowns, survive instantiate+canonicalize, and u_canonicalize must be a monotone compression onto 0..n that map_from_canonical undoes for every kind.",
+    "Trusted: the 30-line reference canonicalizer. `invert` is not judged (the statement does not mention it).",
+    "DESIGN.md §4 C16")
 add("C28", "exhaustive small-scope enumeration with a structural well-formedness monitor on every returned solution",
     "Every solution returned by either solver (and every enumerated SLG answer) over the reduced C01 corpus plus goals with lifetime/const unknowns and nested forall is checked: one entry per query variable, matching kinds, bound variables only at the solution's own binder and in range, no universe the query cannot name, no inference variables, and applying it to the query does not panic.",
     "The monitor reads chalk's values through the public visitor API.",
